@@ -899,5 +899,49 @@ def r_rehash_loop(F, V):
         R.inst(key, "swapped-in element not re-processed", "violation", True, where(body, bb=swaps[0]))
     else:
         R.inst(key, "after a swap control returns to the hasher for the same slot before the outer loop advances", "ok", True, where(body, bb=swaps[0]))
-    # the element moved into an EMPTY target frees its old slot
+    # index discipline of the three arms (i = the slot being processed, new_i = the slot find_insert_slot chose):
+    #   same probe group  : the element stays, so ITS slot gets the hash tag          -> set_ctrl_hash(i, ..)
+    #   target was EMPTY  : the element moves i -> new_i and slot i becomes EMPTY     -> copy_nonoverlapping(ptr(i), ptr(new_i)); set_ctrl(i, EMPTY)
+    #   target was DELETED: the two elements are swapped                               -> swap_nonoverlapping(ptr(i), ptr(new_i))
+    key2 = "raw::RawTableInner::rehash_in_place|arm-indices"
+    same = [(i, t) for i, t in body.calls() if (callee_path(t) or "").endswith("RawTableInner::is_in_same_group")]
+    fis = [(i, t) for i, t in body.calls() if (callee_path(t) or "").endswith("RawTableInner::find_insert_slot")]
+    if not same or not fis:
+        R.undec("rehash_in_place: is_in_same_group (%d) / find_insert_slot (%d) not found" % (len(same), len(fis)))
+        return R
+    sg_i, sg_t = same[0]
+    k_i = expr_key(body, sg_t["args"][1])
+    k_new = expr_key(body, sg_t["args"][2])
+    probs = []
+    if k_i == k_new:
+        probs.append("is_in_same_group compares a slot with itself")
+
+    def ptr_index_key(op):
+        # the index argument of the bucket_ptr call an element pointer comes from
+        for og in body.origins(op):
+            if og[0] == "call" and (callee_path(og[2]) or "").endswith("RawTableInner::bucket_ptr") and len(og[2]["args"]) > 1:
+                return expr_key(body, og[2]["args"][1])
+        return None
+    for i, t in body.calls():
+        cp = callee_path(t) or ""
+        if cp.endswith("RawTableInner::set_ctrl_hash") and len(t["args"]) > 1:
+            # reached on the true edge of is_in_same_group
+            if any(bb == sg_i or (body.term(bb)["k"] == "switch" and any(o[0] == "call" and o[1] == sg_i for o in body.origins(body.term(bb)["discr"]))) for (bb, sx) in body.control_deps_trans(i, "all")):
+                if expr_key(body, t["args"][1]) != k_i:
+                    probs.append("in the same-probe-group arm the hash tag is written to slot `%s` instead of the element's own slot: the element stays where it is, so a stale slot is marked FULL and the live one is left DELETED" % expr_key(body, t["args"][1])[:40])
+        if cp.endswith("ptr::copy_nonoverlapping") and len(t["args"]) > 1:
+            ks, kd = ptr_index_key(t["args"][0]), ptr_index_key(t["args"][1])
+            if ks is not None and kd is not None and not (ks == k_i and kd == k_new):
+                probs.append("the move into an EMPTY target copies from slot `%s` to slot `%s` instead of from the processed slot to the chosen one: the live element is overwritten by the stale bytes of the free slot" % (ks[:30], kd[:30]))
+        if cp.endswith("RawTableInner::set_ctrl") and len(t["args"]) > 2 and t["args"][2]["k"] == "const" and t["args"][2].get("val") == 255:
+            if expr_key(body, t["args"][1]) != k_i:
+                probs.append("after the move the EMPTY tag is written to slot `%s`, not to the vacated slot" % expr_key(body, t["args"][1])[:40])
+        if cp.endswith("RawTableInner::replace_ctrl_hash") and len(t["args"]) > 1:
+            if expr_key(body, t["args"][1]) != k_new:
+                probs.append("replace_ctrl_hash is applied to slot `%s`, not to the chosen target slot" % expr_key(body, t["args"][1])[:40])
+    if probs:
+        R.violation(key2, body, "; ".join(sorted(set(probs))))
+        R.inst(key2, "; ".join(sorted(set(probs))), "violation", True, where(body, bb=sg_i))
+    else:
+        R.inst(key2, "same-group arm tags slot i; the move copies ptr(i) -> ptr(new_i) and empties slot i; replace_ctrl_hash acts on new_i", "ok", True, where(body, bb=sg_i))
     return R
